@@ -120,6 +120,13 @@ class LeafVisitStage(object):
     name = "visit_leaves"
 
     def __init__(self, ch):
+        if LARGE_OK[0] and (os.environ.get("TOASTYSIM_FORCE_HUGE") or (common.thorough() and ch.draw(12000, kind="huge_leaf_set") == 11999)):
+            # thorough tier, very rarely: a filtered layer with a quarter of a million leaves (anything capped at 2**16)
+            self.cfg = common.PyrConfig("filtered", 9, None, {Pos(3, ch.draw(8, kind="huge_reject_x"), ch.draw(8, kind="huge_reject_y")), Pos(9, 1, 2)})
+            self.large = True
+            self.huge = True
+            self.coordsys = ToastCoordinateSystem.ASTRONOMICAL
+            return
         if LARGE_OK[0] and ch.draw(120, kind="large_leaf_set") == 119:
             # now and then a layer with thousands of leaves (hundreds per worker): size-dependent code paths
             if ch.draw(2, kind="large_filtered") == 1:
